@@ -436,7 +436,26 @@ def gen_zero(rng, k):
     return calls
 
 
+def gen_lopsided(rng, k):
+    """one Collocator: an index is built on the larger side, the next call hits the cache, then a LOPSIDED call (size ratio
+    above magnitude_factor) whose large side is another dataset, then the same with the roles swapped -- every call must
+    answer for its own data, whatever tree an earlier call left behind"""
+    c0 = clampk(rng.uniform(-60, 60) / KEY, rng.uniform(-170, 170) / KEY)
+
+    def cloud(n, id0, spread=2000000):
+        return [[id0 + i, 3600 * SEC + i * SEC, c0[0] + rng.randint(-spread, spread), c0[1] + rng.randint(-spread, spread)]
+                for i in range(n)]
+    A, B, B2, small, C = cloud(20, 1000), cloud(18, 5000), cloud(15, 5100), cloud(3, 1200), cloud(60 + 10 * (k % 3), 5300)
+    b = {"dist": gen_dist(rng, 2), "ivl": gen_ivl(rng, 100), "start": None, "end": None, "wstyle": "none"}
+    ds = {n_: to_dataset(rng, pts, "flat") for n_, pts in (("A", A), ("B", B), ("B2", B2), ("s", small), ("C", C))}
+    order = [("A", "B"), ("A", "B2"), ("s", "C"), ("C", "s"), ("A", "B")] if k % 2 == 0 else \
+        [("B", "A"), ("B2", "A"), ("C", "s"), ("s", "C"), ("B", "A")]
+    return [{"P": ds[p_], "S": ds[s_], **b, **dict(gen_tuning(rng), magnitude_factor=10)} for p_, s_ in order]
+
+
 def gen_case(rng, k, big=False, quick=False):
+    if not big and k % 16 == 9:                           # directed, whatever the seed
+        return {"id": k, "kind": "lopsided", "calls": gen_lopsided(rng, k // 16)}
     if not big and k % 16 == 5:                           # directed, whatever the seed
         return {"id": k, "kind": "zero", "calls": gen_zero(rng, k // 16)}
     if big:
